@@ -92,6 +92,21 @@ Proof.
   - intros [H|H]; [left; congruence|]. destruct (N.eq_dec k' k); [left; congruence|right; tauto].
 Qed.
 
+Lemma phl_set_nth l i c' j :
+  (i < length l)%nat -> phl (set_nth i c' l) j = if Nat.eqb i j then Some (c_phase c') else phl l j.
+Proof.
+  intro H. unfold phl. destruct (Nat.eqb i j) eqn:E.
+  - apply Nat.eqb_eq in E; subst j. rewrite nth_error_set_nth_same by exact H. reflexivity.
+  - apply Nat.eqb_neq in E. rewrite nth_error_set_nth_other by exact E. reflexivity.
+Qed.
+Lemma idl_set_nth l i c' j :
+  (i < length l)%nat -> idl (set_nth i c' l) j = if Nat.eqb i j then c_id c' else idl l j.
+Proof.
+  intro H. unfold idl. destruct (Nat.eqb i j) eqn:E.
+  - apply Nat.eqb_eq in E; subst j. rewrite nth_error_set_nth_same by exact H. reflexivity.
+  - apply Nat.eqb_neq in E. rewrite nth_error_set_nth_other by exact E. reflexivity.
+Qed.
+
 Lemma NoDup_snoc {A} (l : list A) (x : A) : NoDup l -> ~ In x l -> NoDup (l ++ [x]).
 Proof.
   induction l as [|y r IH]; intros H Hx; cbn; [constructor; [intros []|constructor]|].
@@ -812,5 +827,172 @@ Section Inv.
       apply Nat.eqb_eq in E; subst j. rewrite H0. cbn. discriminate.
     - exact SE.
     - exact DD.
+  Qed.
+
+  (* ---------------------------------------------------------------- Channel::call *)
+  Lemma phl_nth s i c : nth_error (calls s) i = Some c -> phl (calls s) i = Some (c_phase c).
+  Proof. unfold phl. intros ->. reflexivity. Qed.
+  Lemma idl_nth s i c : nth_error (calls s) i = Some c -> idl (calls s) i = c_id c.
+  Proof. unfold idl. intros ->. reflexivity. Qed.
+
+  (* the first poll: request id, oneshot *)
+  Definition assign s i (c : call) : cstate :=
+    set_slot (with_id (upd_misc s (N.modulo (next_id s + 1) 18446744073709551616) (handles s) (now s))
+                      i c (next_id s)) (next_id s) slot0.
+
+  Lemma Inv_assign s i c :
+    nth_error (calls s) i = Some c -> c_phase c = PNew -> next_id s + 1 < two64 -> Inv s ->
+    Inv (assign s i c) /\ phl (calls (assign s i c)) i = Some PNew /\ fresh_for (assign s i c) i /\
+    idl (calls (assign s i c)) i = next_id s /\ next_id (assign s i c) = next_id s + 1.
+  Proof.
+    intros Ec Ep Hw [W Ids AW SE DD]. unfold assign, with_id. norm_state.
+    assert (Hlt : (i < length (calls s))%nat) by (apply nth_error_Some; congruence).
+    assert (Hph : forall j, phl (set_nth i {| c_handle := c_handle c; c_phase := c_phase c; c_id := next_id s;
+                    c_rel := c_rel c; c_deadline := c_deadline c; c_tc := c_tc c; c_body := c_body c |}
+                    (calls s)) j = phl (calls s) j).
+    { intro j. rewrite phl_set_nth by exact Hlt. cbn [c_phase]. destruct (Nat.eqb i j) eqn:E; [|reflexivity].
+      apply Nat.eqb_eq in E; subst j. symmetry. apply phl_nth, Ec. }
+    assert (Hnid : N.modulo (next_id s + 1) 18446744073709551616 = next_id s + 1).
+    { apply N.mod_small. exact Hw. }
+    assert (Hi : phl (calls s) i = Some PNew) by (rewrite (phl_nth _ _ _ Ec), Ep; reflexivity).
+    assert (Hact : forall j, actph (phl (calls s) j) = true -> j <> i).
+    { intros j Hj ->. rewrite Hi in Hj. discriminate. }
+    split; [|split; [|split; [|split]]].
+    - constructor; norm_state.
+      + destruct W. constructor; norm_state; try assumption.
+        * intros j. rewrite Hph. apply i_wa0.
+        * intros j Hj. rewrite Hph. apply i_wb0, Hj.
+      + destruct Ids. constructor; norm_state; rewrite ?Hnid.
+        * intros j. rewrite Hph. intro Hj. rewrite idl_set_nth by exact Hlt.
+          pose proof (Hact j Hj) as Hn. apply Nat.eqb_neq in Hn. rewrite Nat.eqb_sym, Hn.
+          specialize (i_id0 j Hj). lia.
+        * intros j k. rewrite !Hph. intros Hj Hk. rewrite !idl_set_nth by exact Hlt.
+          pose proof (Hact j Hj) as Hn. apply Nat.eqb_neq in Hn. rewrite Nat.eqb_sym, Hn.
+          pose proof (Hact k Hk) as Hn'. apply Nat.eqb_neq in Hn'. rewrite Nat.eqb_sym, Hn'.
+          apply i_uq0; assumption.
+        * intros id Hid. destruct (i_cn0 id Hid) as [H1 H2]. split; [lia|].
+          intros j. rewrite Hph. intro Hj. rewrite idl_set_nth by exact Hlt.
+          pose proof (Hact j Hj) as Hn. apply Nat.eqb_neq in Hn. rewrite Nat.eqb_sym, Hn. apply H2, Hj.
+      + intros j. rewrite Hph. intro Hj. rewrite idl_set_nth by exact Hlt.
+        assert (Hn : j <> i) by (intros ->; congruence). apply Nat.eqb_neq in Hn. rewrite Nat.eqb_sym, Hn.
+        specialize (AW j Hj). unfold cov in *. rewrite slotv_aset.
+        assert (Hid : idl (calls s) j < next_id s) by (apply (i_id _ Ids); rewrite Hj; reflexivity).
+        destruct (N.eqb (idl (calls s) j) (next_id s)) eqn:E; [apply N.eqb_eq in E; lia|exact AW].
+      + intros id a. rewrite slotv_aset. destruct (N.eqb id (next_id s)); [discriminate|apply SE].
+      + exact DD.
+    - rewrite Hph. exact Hi.
+    - unfold fresh_for. norm_state. rewrite Hnid, idl_set_nth by exact Hlt. rewrite Nat.eqb_refl. cbn [c_id].
+      split; [lia|]. split.
+      + intros j Hn. rewrite Hph. intro Hj. rewrite idl_set_nth by exact Hlt.
+        apply Nat.eqb_neq in Hn. rewrite Nat.eqb_sym, Hn.
+        pose proof (i_id _ Ids j Hj). lia.
+      + intro Hin. destruct (i_cn _ Ids _ Hin) as [H _]. lia.
+    - rewrite idl_set_nth by exact Hlt. rewrite Nat.eqb_refl. reflexivity.
+    - exact Hnid.
+  Qed.
+
+  Lemma fresh_for_upd_q s i a b c d : fresh_for s i -> fresh_for (upd_q s a b c d) i.
+  Proof. exact (fun H => H). Qed.
+
+  Lemma Inv_poll_call s i r s' :
+    poll_call s i = (r, s') -> next_id s + 1 < two64 -> Inv s -> Inv s'.
+  Proof.
+    unfold poll_call. destruct (nth_error (calls s) i) as [c|] eqn:Ec; [|intros [= <- <-]; tauto].
+    pose proof (phl_nth _ _ _ Ec) as Hph. pose proof (idl_nth _ _ _ Ec) as Hid.
+    destruct (c_phase c) eqn:Ep; try (intros [= <- <-]; tauto).
+    - (* PNew *)
+      intros H Hw I. destruct (Inv_assign _ _ _ Ec Ep Hw I) as (I1 & P1 & F1 & Id1 & N1).
+      fold (assign s i c) in H. set (s1 := assign s i c) in *.
+      destruct (rx_closed s1) eqn:Erx.
+      + replace s' with (snd (fail_shutdown s1 i (next_id s))) by (rewrite H; reflexivity).
+        apply (Inv_fail_shutdown _ _ _ PNew); try assumption; try discriminate; [lia|].
+        intros j Hn Hj. rewrite <- Id1. apply F1; assumption.
+      + destruct (permits s1) as [|pm] eqn:Epm.
+        * injection H as _ <-. apply Inv_acquire_state; assumption.
+        * unfold enqueue in H. cbn [permits queue waiters rx_closed upd_q] in H.
+          match type of H with poll_slot ?st _ _ = _ =>
+            replace s' with (snd (poll_slot st i (next_id s))) by (rewrite H; reflexivity);
+            assert (I2 : Inv st) end.
+          { set (q := {| q_id := next_id s |}).
+            assert (I1' : Inv (upd_q s1 pm (queue s1) (waiters s1) (rx_closed s1))).
+            { eapply InvX_vframe; [|exact I1]. constructor; reflexivity. }
+            apply (Inv_enqueue_state (upd_q s1 pm (queue s1) (waiters s1) (rx_closed s1)) i PNew q pm);
+              try assumption; try discriminate. cbn [q_id q]. symmetry; exact Id1. }
+          apply (Inv_poll_slot _ _ _ PAwaiting); [|discriminate|exact I2].
+          rewrite set_phase_alt. cbn [calls upd_calls upd_q]. rewrite phl_phase_calls, Nat.eqb_refl.
+          rewrite P1. reflexivity.
+    - (* PAssigned *)
+      intros H Hw I. pose proof (fresh_for_active s i (i_ids _ _ I)) as F.
+      rewrite Hph in F. specialize (F eq_refl).
+      destruct (rx_closed s) eqn:Erx.
+      + replace s' with (snd (fail_shutdown (upd_q s (S (permits s)) (queue s) (waiters s) (rx_closed s)) i (c_id c)))
+          by (rewrite Erx, H; reflexivity).
+        apply (Inv_fail_shutdown _ _ _ PAssigned); try assumption; try discriminate.
+        * rewrite <- Hid. apply F.
+        * intros j Hn Hj. rewrite <- Hid. apply F; assumption.
+        * eapply InvX_vframe; [|exact I]. constructor; reflexivity.
+      + unfold enqueue in H.
+        match type of H with poll_slot ?st _ _ = _ =>
+          replace s' with (snd (poll_slot st i (c_id c))) by (rewrite H; reflexivity);
+          assert (I2 : Inv st) end.
+        { apply (Inv_enqueue_state s i PAssigned _ (permits s)); try assumption; try discriminate.
+          cbn [q_id]. symmetry; exact Hid. }
+        apply (Inv_poll_slot _ _ _ PAwaiting); [|discriminate|exact I2].
+        rewrite set_phase_alt. cbn [calls upd_calls upd_q]. rewrite phl_phase_calls, Nat.eqb_refl.
+        rewrite Hph. reflexivity.
+    - (* PAcqClosed *)
+      intros H Hw I. pose proof (fresh_for_active s i (i_ids _ _ I)) as F.
+      rewrite Hph in F. specialize (F eq_refl).
+      replace s' with (snd (fail_shutdown s i (c_id c))) by (rewrite H; reflexivity).
+      apply (Inv_fail_shutdown _ _ _ PAcqClosed); try assumption; try discriminate.
+      + rewrite <- Hid. apply F.
+      + intros j Hn Hj. rewrite <- Hid. apply F; assumption.
+    - (* PAwaiting *)
+      intros H Hw I. replace s' with (snd (poll_slot s i (c_id c))) by (rewrite H; reflexivity).
+      apply (Inv_poll_slot _ _ _ PAwaiting); [exact Hph|discriminate|exact I].
+  Qed.
+
+  Lemma next_id_poll_call s i r s' :
+    poll_call s i = (r, s') -> next_id s' = next_id s \/ next_id s' = N.modulo (next_id s + 1) two64.
+  Proof.
+    unfold poll_call. destruct (nth_error (calls s) i) as [c|]; [|intros [= _ <-]; left; reflexivity].
+    assert (P : forall st id r0 s0, poll_slot st i id = (r0, s0) -> next_id s0 = next_id st).
+    { intros st id r0 s0. unfold poll_slot. destruct (sl_val _).
+      - intros [= _ <-]. rewrite set_phase_alt. reflexivity.
+      - destruct (sl_tx_gone _); intros [= _ <-]; [rewrite set_phase_alt|]; reflexivity. }
+    assert (Fs : forall st id r0 s0, fail_shutdown st i id = (r0, s0) -> next_id s0 = next_id st).
+    { intros st id r0 s0. unfold fail_shutdown. intros [= _ <-]. rewrite set_phase_alt, push_cancel_alt.
+      reflexivity. }
+    destruct (c_phase c); try (intros [= _ <-]; left; reflexivity).
+    - destruct (rx_closed _).
+      + intro H. apply Fs in H. right. rewrite H. reflexivity.
+      + destruct (permits _).
+        * intros [= _ <-]. right. rewrite set_phase_alt. reflexivity.
+        * unfold enqueue. intro H. apply P in H. right. rewrite H, set_phase_alt. reflexivity.
+    - destruct (rx_closed s).
+      + intro H. apply Fs in H. left. rewrite H. reflexivity.
+      + unfold enqueue. intro H. apply P in H. left. rewrite H, set_phase_alt. reflexivity.
+    - intro H. apply Fs in H. left. exact H.
+    - intro H. apply P in H. left. exact H.
+  Qed.
+
+  (* once the dispatch has failed or is gone, a caller is never left waiting *)
+  Lemma poll_call_not_pending s i s' :
+    poll_call s i = (CPending, s') -> Inv s -> ~ alive s -> False.
+  Proof.
+    intros H [W Ids AW SE DD] Hna.
+    destruct DD as [D|(Rx & Q & F)]; [contradiction|].
+    revert H. unfold poll_call. destruct (nth_error (calls s) i) as [c|] eqn:Ec; [|discriminate].
+    pose proof (phl_nth _ _ _ Ec) as Hph. pose proof (idl_nth _ _ _ Ec) as Hid.
+    destruct (c_phase c) eqn:Ep; try discriminate.
+    - cbn [rx_closed set_slot upd_slots with_id upd_calls upd_misc]. rewrite Rx. discriminate.
+    - intros _. apply (i_wa _ W) in Hph. rewrite (i_wd _ W Rx) in Hph. exact Hph.
+    - rewrite Rx. discriminate.
+    - discriminate.
+    - unfold poll_slot. specialize (AW i Hph). unfold cov in AW. rewrite Q, F, Hid in AW.
+      destruct AW as [[]|[[]|[[]|AW]]]. rewrite get_slot_slotv.
+      destruct (sl_val (slotv (slots s) (c_id c))) eqn:Ev; [discriminate|].
+      destruct (sl_tx_gone (slotv (slots s) (c_id c))) eqn:Et; [discriminate|].
+      destruct AW as [AW|AW]; congruence.
   Qed.
 End Inv.
